@@ -32,14 +32,23 @@ _BLOCK_KEYS = ("t", "unwind", "otherwise", "imag")
 
 
 def barrier_names():
-    """identifiers mentioned anywhere in the analysers or rules: a function of that name is an anchor"""
+    """identifiers mentioned in string literals anywhere in the analysers or rules (that is how a rule names a function of the
+    analysed program): a function of that name is an anchor.  Identifiers of the analysers' own code (`def lease_bounds`) are not."""
+    import io
+    import tokenize
     here = os.path.dirname(os.path.abspath(__file__))
     words = set()
     for root, _, files in os.walk(here):
         for f in files:
             if f.endswith(".py") and f != "inline.py":
                 with open(os.path.join(root, f)) as fh:
-                    words.update(re.findall(r"[A-Za-z_][A-Za-z0-9_]*", fh.read()))
+                    src = fh.read()
+                try:
+                    for tok in tokenize.generate_tokens(io.StringIO(src).readline):
+                        if tok.type == tokenize.STRING or tok.type == getattr(tokenize, "FSTRING_MIDDLE", -1):
+                            words.update(re.findall(r"[A-Za-z_][A-Za-z0-9_]*", tok.string))
+                except (tokenize.TokenError, IndentationError, SyntaxError):
+                    words.update(re.findall(r"[A-Za-z_][A-Za-z0-9_]*", src))
     return words
 
 
